@@ -84,6 +84,33 @@ fn reserialise(d: &str, how: usize) -> Option<String> {
         5 => d[..d.len() - 1].to_string(),                            // truncated
         6 => format!("{}A", d),                                       // extended
         7 => d.replacen('-', "+", 1).replacen('_', "/", 1),           // standard alphabet
+        9 => {
+            // the same bytes spelled with non-zero unused bits in the last symbol (length % 4 = 2: four unused bits, = 3: two)
+            let unused = match d.len() % 4 {
+                2 => 4,
+                3 => 2,
+                _ => return None,
+            };
+            let last = *d.as_bytes().last()?;
+            let idx = B64.iter().position(|x| *x == last)?;
+            let alt = B64[(idx & !((1 << unused) - 1)) | ((idx + 1) & ((1 << unused) - 1))];
+            if alt == last {
+                return None;
+            }
+            format!("{}{}", &d[..d.len() - 1], alt as char)
+        }
+        10 => {
+            // a forgery that re-uses the genuine salt (and name), with another value
+            let mut a = v.as_array()?.clone();
+            let n = a.len();
+            a[n - 1] = json!("Mallory");
+            b64(Value::Array(a).to_string().as_bytes())
+        }
+        11 => {
+            // the genuine salt in a string that is no disclosure at all
+            let a = v.as_array()?;
+            b64(json!([a[0], "x", "y", "z"]).to_string().as_bytes())
+        }
         _ => {
             // same JSON value, escapes spelled differently (the digest is over the text, so this is a different disclosure)
             let esc: String = text.chars().map(|c| if c.is_ascii_alphabetic() && c != 'u' { format!("\\u{:04x}", c as u32) } else { c.to_string() }).collect();
@@ -415,7 +442,7 @@ pub fn run(ctx: &mut Ctx, o: &AttackOpts) {
                 if di % o.stride.max(1).min(3) != 0 {
                     continue;
                 }
-                for how in 0..9 {
+                for how in 0..12 {
                     if let Some(t) = reserialise(d, how) {
                         let mut m2 = full.clone();
                         m2.kb = None;
@@ -423,8 +450,17 @@ pub fn run(ctx: &mut Ctx, o: &AttackOpts) {
                         go(ctx, &m2, false);
                         let mut m3 = full.clone();
                         m3.kb = None;
-                        m3.discs.push(t);
+                        m3.discs.push(t.clone());
                         go(ctx, &m3, false);
+                        // ... and BEFORE the genuine one (what precedes a disclosure must not affect it)
+                        let mut m4 = full.clone();
+                        m4.kb = None;
+                        m4.discs.insert(0, t.clone());
+                        go(ctx, &m4, false);
+                        let mut m5 = full.clone();
+                        m5.kb = None;
+                        m5.discs.insert(di, t);
+                        go(ctx, &m5, false);
                     }
                 }
             }
